@@ -116,9 +116,15 @@ class SumAggregator:
             if condition.literal.sign != Sign.NoSign or condition.literal.atom.ast_type != ASTType.SymbolicAtom:
                 alone = False
                 continue
-            assert condition.literal.atom.symbol.ast_type == ASTType.Function
+            if condition.literal.atom.symbol.ast_type != ASTType.Function:  # classical negation, pool
+                alone = False
+                continue
 
             sa = condition.literal.atom.symbol
+            # a body variable that only occurs in the condition gives one choice per value of it
+            hidden = set(collect_ast(condition, "Variable")) & global_vars - set(collect_ast(sa, "Variable"))
+            if hidden:
+                return ret
             p = Predicate(sa.name, len(sa.arguments))
             unprojected: list[int] = []
             for index, arg in enumerate(sa.arguments):
